@@ -47,7 +47,7 @@ PROPS = {
               "c08::t_buf_enc_step_b3_a1_n7", "c08::t_buf_dec_step_b3_a1_n7"],
         bounds=dict(cipher=CIPHER + "; the cipher type implements ONLY the encryption traits, so use of the decryption direction would not compile",
                     cfb="block API (multi/single/b2b), one-shot with partial tail, concrete lengths up to 3b+3 and SYMBOLIC length 0..=3b+1; b in {2,4} (thorough 1,3,8,16); w in {1,2,3} (4, 8)",
-                    cfb8="shift register with b in {2,3} (thorough 1,4,8), up to 10 bytes, SYMBOLIC length",
+                    cfb8="shift register with b in {2,3} (thorough 1,4,8), up to 10 bytes, SYMBOLIC length; one 64-byte single encrypt call (b=2) with the concrete byte-wise cipher Lin (symbolic key/IV/data) instead of the uninterpreted permutation",
                     ofb="four faces (encrypt, decrypt, keystream core, raw keystream, byte-level alias), b in {2,4} (1,3,8,16)",
                     buffered_cfb="from every reachable state (fresh object over a symbolic IV + first piece of a bytes, exported with get_state and re-imported with from_state) ONE call of SYMBOLIC length equals the CFB recurrence (c08 step harnesses); long calls (>= 4 whole blocks after a mid-block start) at concrete geometry"),
         outside=COMMON_OUTSIDE,
